@@ -55,7 +55,8 @@ def build_report(rep, k):
         base = inst(f["pathC"], k + n) + f"{n}.py" if f["pathC"] != "plain" else f"mod{n}.py"
         path = {"top": base, "nested": "pkg/" + base, "deep": "pkg/sub/" + base}[f["shape"]]
         ms = [Measurement(inst(f["nameC"], k + i) if f["nameC"] != "plain" else f"fn{i}", Location(3 + 40 * i, 1 + i), Location(12 + 40 * i, 2), (10, 35, 61)[i % 3]) for i in range(f["nmeas"])]
-        cb.add_file(SourceFileEntry(path, f"{n:032x}", "Python" if n % 2 == 0 else "C", sum(m.value for m in ms), ms))
+        checksum = "c0ffee" * 5 + "00" if rep.get("sums") == "same" else f"{n:032x}"
+        cb.add_file(SourceFileEntry(path, checksum, "Python" if n % 2 == 0 else "C", sum(m.value for m in ms), ms))
     cb.aggregate()
     repo = None
     if rep["repo"]:
@@ -116,7 +117,7 @@ def observe(arg):
 
     chunk, k = arg
     rep = parse_state(chunk)["rep"]
-    rep = {"version": rep["version"], "root": rep["root"], "repo": list(rep["repo"]), "files": [dict(f) for f in rep["files"]]}
+    rep = {"version": rep["version"], "root": rep["root"], "repo": list(rep["repo"]), "files": [dict(f) for f in rep["files"]], "sums": rep["sums"]}
     r = build_report(rep, k)
     I = Intern()
     ev = {"rep": rep, "orig": project_report(r, I), "doc": EMPTY, "back": EMPTY, "pretty_valid": False, "compact_valid": False, "same_parse": False, "rewrite_same": False}
@@ -171,6 +172,8 @@ def special_fields(rep):
     for i, x in enumerate(rep["repo"]):
         if x not in ("plain",):
             out.append(("owner", "name", "branch")[i] + ":" + x)
+    if rep.get("sums") == "same":
+        out.append("checksum:shared")
     for f in rep["files"]:
         if f["pathC"] != "plain":
             out.append("path:" + f["pathC"])
@@ -199,7 +202,7 @@ def run(tier: str) -> int:
             events.append(dict(r[1], exc=""))
         else:
             rp = parse_state(j[0])["rep"]
-            events.append({"rep": {"version": rp["version"], "root": rp["root"], "repo": list(rp["repo"]), "files": [dict(f) for f in rp["files"]]}, "orig": EMPTY, "doc": EMPTY, "back": EMPTY,
+            events.append({"rep": {"version": rp["version"], "root": rp["root"], "repo": list(rp["repo"]), "files": [dict(f) for f in rp["files"]], "sums": rp["sums"]}, "orig": EMPTY, "doc": EMPTY, "back": EMPTY,
                            "pretty_valid": True, "compact_valid": True, "same_parse": True, "rewrite_same": True, "exc": r[1] if r[0] == "exc" else "timeout"})
     log(f"[C08] G {m.distinct} report values x {b['inst']} instantiation(s) written, parsed and read back, {t.s()}s")
     rejected = accept(wd, events)
@@ -231,7 +234,7 @@ def replay(path: str) -> int:
     rep = case["rep"]
     from ..tlaval import to_tla
 
-    chunk = "/\\ rep = " + to_tla({"version": rep["version"], "root": rep["root"], "repo": tuple(rep["repo"]), "files": tuple(rep["files"])})
+    chunk = "/\\ rep = " + to_tla({"version": rep["version"], "root": rep["root"], "repo": tuple(rep["repo"]), "files": tuple(rep["files"]), "sums": rep.get("sums", "distinct")})
     r = guarded(observe, (chunk, case["instantiation"]), 60)
     print("report value:", rep)
     ev = dict(r[1], exc="") if r[0] == "ok" else {"rep": rep, "orig": EMPTY, "doc": EMPTY, "back": EMPTY, "pretty_valid": True, "compact_valid": True, "same_parse": True, "rewrite_same": True, "exc": str(r[1])}
